@@ -1,24 +1,23 @@
 #!/bin/bash
-# tools/seedsweep.sh [name...]  — applies every seeded change to /repo itself (git -C /repo apply), runs the quick check of the
-# property it breaks, and undoes it straight afterwards (git -C /repo checkout -- .). Writes seeded/MATRIX.md.
+# tools/seedsweep.sh [name...]  — applies seeded changes to /repo itself (git -C /repo apply), runs the quick check of the
+# property each breaks, and undoes it straight afterwards (git -C /repo checkout -- .). Without arguments: every seed, and
+# seeded/MATRIX.md is rewritten; with names: only those, and their rows in seeded/MATRIX.md are replaced.
+# Do not run ./check (or anything else that builds from /repo) while this runs.
 set -u
 ROOT=/verif
 cd $ROOT
 NAMES=("$@")
-if [ ${#NAMES[@]} -eq 0 ]; then NAMES=($(ls seeded | grep -v MATRIX | sort -V)); fi
+PARTIAL=1
+if [ ${#NAMES[@]} -eq 0 ]; then PARTIAL=0; NAMES=($(ls seeded | grep -v MATRIX | sort -V)); fi
 OUT=$(mktemp -d /tmp/seedsweep.XXXXXX)
-{
-echo "# Seeded changes x checks (each patch applied to /repo, ./check <property> quick, then reverted)"
-echo
-echo "| seed | property | applies | check exit | verdict | first violation key |"
-echo "|---|---|---|---|---|---|"
-} > $OUT/MATRIX.md
+: > $OUT/rows
 for N in "${NAMES[@]}"; do
   [ -f seeded/$N/patch.diff ] || continue
   P=$(python3 -c "import json;print(json.load(open('seeded/$N/meta.json'))['breaks_property'])")
+  SUP=$(python3 -c "import json;print(json.load(open('seeded/$N/meta.json')).get('superseded',False))")
   if [ -n "$(git -C /repo status --porcelain --untracked-files=no)" ]; then echo "/repo dirty, abort"; exit 2; fi
   if ! git -C /repo apply --check $ROOT/seeded/$N/patch.diff 2>/dev/null; then
-    echo "| $N | $P | no (superseded by a later fix commit) | - | - | - |" >> $OUT/MATRIX.md
+    echo "| $N | $P | no (superseded by a later fix commit) | - | - | - |" >> $OUT/rows
     echo "$N: does not apply"
     continue
   fi
@@ -27,9 +26,28 @@ for N in "${NAMES[@]}"; do
   git -C /repo checkout -- .
   KEY=$(echo "$RES" | grep -m1 '^  key=' | sed 's/^  key=\([^ ]*\).*/\1/')
   V=missed; [ $RC -eq 1 ] && V=detected; [ $RC -eq 2 ] && V=inconclusive
-  echo "| $N | $P | yes | $RC | $V | ${KEY:-} |" >> $OUT/MATRIX.md
+  [ "$SUP" = "True" ] && [ $RC -eq 0 ] && V="superseded (a later fix removed what the change relied on; it no longer breaks the property)"
+  echo "| $N | $P | yes | $RC | $V | ${KEY:-} |" >> $OUT/rows
   echo "$N: $P exit=$RC $V $KEY"
 done
-cp $OUT/MATRIX.md seeded/MATRIX.md
+python3 - $OUT/rows $PARTIAL <<'PY'
+import sys,re
+rows=[l.rstrip('\n') for l in open(sys.argv[1]) if l.startswith('|')]
+partial=sys.argv[2]=='1'
+path='/verif/seeded/MATRIX.md'
+head=["# Seeded changes x checks (each patch applied to /repo, ./check <property> quick, then reverted)","","| seed | property | applies | check exit | verdict | first violation key |","|---|---|---|---|---|---|"]
+old={}
+if partial:
+    try:
+        for l in open(path):
+            m=re.match(r'\| (C\d+-\d+) \|',l)
+            if m: old[m.group(1)]=l.rstrip('\n')
+    except FileNotFoundError: pass
+for r in rows:
+    old[re.match(r'\| (C\d+-\d+) \|',r).group(1)]=r
+def key(n):
+    a,b=n[1:].split('-'); return (int(a),int(b))
+open(path,'w').write('\n'.join(head+[old[k] for k in sorted(old,key=key)])+'\n')
+PY
 rm -rf $OUT
 git -C /repo status --short | head -3
